@@ -548,13 +548,27 @@ LOADERS = {
 
 
 def load_as(kind, data, how='bytes'):
-    """how: bytes | bytearray | memoryview | file | load_bytes | load_file"""
+    """how: bytes | bytearray | memoryview | file | load_bytes | load_file | diskfile | load_diskfile | spooled"""
     if how in ('bytes', 'load_bytes'):
         src = bytes(data)
     elif how == 'bytearray':
         src = bytearray(data)
     elif how == 'memoryview':
         src = memoryview(bytes(data))
+    elif how in ('diskfile', 'load_diskfile', 'spooled'):
+        # a REAL file object (open(path, 'rb') of a file on disk, or a SpooledTemporaryFile): readers that special-case
+        # files with a descriptor (np.fromfile, readinto, seek past EOF) behave differently from BytesIO (round-6 miss C10 r6m2)
+        import tempfile
+        if how == 'spooled':
+            with tempfile.SpooledTemporaryFile(max_size=1 << 20) as fp:
+                fp.write(bytes(data))
+                fp.seek(0)
+                return LOADERS[kind](fp)
+        with tempfile.NamedTemporaryFile(prefix='verif-c10-', delete=True) as tf:
+            tf.write(bytes(data))
+            tf.flush()
+            with open(tf.name, 'rb') as fp:
+                return fv_load(fp) if how.startswith('load') else LOADERS[kind](fp)
     else:
         src = io.BytesIO(bytes(data))
     if how.startswith('load'):
